@@ -12,8 +12,9 @@ Deductive part (no assumption on the signature or the data: every string / byte 
     caller turns into a closed connection (C04 proves that for dataReceived).
   * the leaf decoders are loop free (terminate trivially) and read inside the data or raise struct.error.
 Dispatch through unmarshallers[c] uses the generic table contract carrying the same measure.
-Bounded part (labelled): genCompleteTypes (generator with a nested closure: outside the subset) and parseMessage as a
-whole, by an interpreter-step budget linear in the input over truncations / byte mutations of valid messages, hostile
+  * genCompleteTypes and its inner bracket matcher find_end terminate for every string (loop variants, recursion on a
+    strictly shorter string) and yield non-empty pieces no longer than the input (contracts/splitter_contracts.py).
+Bounded part (labelled): parseMessage as a whole and the splitter once more, by an interpreter-step budget linear in the input over truncations / byte mutations of valid messages, hostile
 signatures from a grammar, lying length fields.
 """
 import random
@@ -83,14 +84,8 @@ def add_any_contracts(w, targets):
              decreases=lambda cx: measure(z3.Length(cx.a('ct')), cx.a('data'), cx.a('offset'), RANK_ENTRY), rec_group='decode',
              raises=allowed, may_raise_any=True, assumed=True)
 
-    def gct_post(cx):
-        r = cx.result
-        sig = cx.a('compoundSig')
-        cx.ctx.elem_facts.append((r.seqs[0], lambda i, e, sig=sig: z3.And(z3.Length(e) >= 1, z3.Length(e) <= z3.Length(sig))))
-        return [('pieces', z3.BoolVal(True))]
-
-    contract(w, 'txdbus.marshal.genCompleteTypes', {'compoundSig': STR}, result=ListT(STR), ensures=gct_post,
-             raises=allowed, may_raise_any=True, assumed=True)
+    from . import splitter_contracts as SC
+    SC.add_splitter_contracts(w, targets)          # genCompleteTypes and its inner find_end: verified here as well (termination, piece bounds)
 
     nonneg = progress
 
@@ -281,7 +276,7 @@ def build(tier='quick'):
     sp = Spec('C05', w, lambda world: Models05(world), targets, replay=replay,
                 bounded=[{'name': 'step-budget', 'run': run_bounded}],
                 trusted=['struct.unpack_from raises struct.error when the read would pass the end of the data; codecs decode as uninterpreted functions (ascii: one character per byte)'],
-                assumed=['genCompleteTypes returns non-empty pieces no longer than its input, or raises (generator + closure: outside the subset; its own termination is in the bounded part)',
+                assumed=['genCompleteTypes is verified in its eager reading (the list it yields when run to completion); a consumer that stops early sees a prefix of that list',
                          'the generic table contract: each unmarshallers entry returns a non-negative count and obeys the shared measure - every live entry is verified against exactly that',
                          'subscripting / hashing opaque decoded values either raises IndexError / TypeError or succeeds'],
                 notes=['termination = decreasing measures (partial-correctness engine + variants); "work proportional to the length" as a step count is the bounded part'],
